@@ -85,6 +85,50 @@ def run(pid, tier, replay=None):
                     chk.case(json.dumps(lab), nontrivial=any(x_[0] == "close" for x_ in lab) and any(x_[0] == "step" and x_[1] > 0 for x_ in lab))
                 finally:
                     run_.finish()
+            # directed histories: an address is given up on (limit exceeded), then comes back through every door -- announced by a greeted
+            # peer, greeting from the same host with that listening port, announced again after a long time -- and the node keeps stepping
+            if label == "limit_3":
+                for variant in range(4 if quick else 12):
+                    run_ = peer_drv.PeerRun(w, g, [(1, 2412), (2, 2412)], tid=len(traces) + 1)
+                    lab = ["directed give-up", variant]
+                    try:
+                        nm = run_.node.local.network_manager
+                        for _ in range(max_attempts + 3):          # host 1 never greets: every attempt ends without a greeting
+                            run_.tick(rng.choice([1800, 1801, 3600]))
+                            run_.step()
+                            for p_ in list(nm.connected_peers.values()):
+                                k_ = run_.key_of(p_)
+                                if k_["h"] == 1:
+                                    run_.close(k_)
+                                elif not p_.hello_received:
+                                    run_.hello(k_, 2412, False)         # host 2 greets and stays
+                        for _ in range(2):
+                            run_.tick(3600)
+                            run_.step()
+                        greeted = [run_.key_of(p_) for p_ in nm.connected_peers.values() if p_.hello_received]
+                        if variant % 4 in (0, 2) and greeted:
+                            run_.peers(greeted[0], [(1, 2412), (5, 2412)])
+                        if variant % 4 in (1, 2):
+                            run_.incoming(1, 40001)
+                            inc = [run_.key_of(p_) for p_ in nm.connected_peers.values() if run_.key_of(p_)["h"] == 1]
+                            if inc:
+                                run_.hello(inc[0], 2412, False)
+                        if variant % 4 == 3 and greeted:
+                            run_.peers(greeted[0], [(1, 2412)])
+                            run_.tick(7200)
+                            run_.peers(greeted[0], [(1, 2412)])
+                        for dt_ in (1, 10, 1800, 3600):
+                            run_.step()
+                            run_.tick(dt_)
+                            for p_ in list(nm.connected_peers.values()):
+                                k_ = run_.key_of(p_)
+                                if k_["h"] == 1 and k_["d"] == "OUTGOING":
+                                    run_.close(k_)
+                        run_.step()
+                        traces.append(run_.trace())
+                        chk.case(json.dumps(lab), nontrivial=True)
+                    finally:
+                        run_.finish()
         finally:
             rp.MAX_CONNECTION_ATTEMPTS = real["MaxAttempts"]
         chk.sample({"source": "randomized peer-book events (%s)" % label, "events": lab[:12]})
